@@ -106,8 +106,15 @@ def gate_case(bits, source, tty, answers, ci_idx=0, pycharm=False, xd=0, xfail=F
         if ci_idx == k + 1:
             ci_var = name
     answers = [True if a else False for a in answers]
+    # xfail: 0/False none, 1/True mark on the function, 2 mark inherited from class/module, 3 xfail(False) (= not xfail)
+    xf = 0 if not xfail else (1 if xfail == 1 else (2 if xfail == 2 else 3))
+    xmarks = {}
+    if xf:
+        spec = ("own", ()) if xf == 1 else (("inherited", ()) if xf == 2 else ("own", (False,)))
+        xmarks = {"test_a": spec, "test_b": spec}
+    xfail = xf in (1, 2)
     r = world.plugin_session({"test_a.py": TEXT, "test_b.py": TEXT_B}, cli=cli, env_flags=env, tty=tty, ci_var=ci_var, pycharm=pycharm, nproc=nproc,
-                             answers=answers, xfail=("test_a", "test_b") if xfail else (), pyproject=PYPROJECTS[pyproject],
+                             answers=answers, xfail=xmarks, pyproject=PYPROJECTS[pyproject],
                              shortcut_args=shortcut, storage_files={U: b"unused"})
     # ---- model
     if shortcut is not None:
@@ -160,6 +167,14 @@ def gate_case(bits, source, tty, answers, ci_idx=0, pycharm=False, xd=0, xfail=F
         return False
     if got_b != (["7"] if "fix" in approved else OLD_B):
         return False
+    # nothing outside the snapshot arguments changes; the only permitted extra edit is the import the new code needs
+    with world.NoTracing():
+        ta, tb = str(world.text_after(r, "test_a.py")), str(world.text_after(r, "test_b.py"))
+        if world.mask_snapshot_args(tb) != world.mask_snapshot_args(TEXT_B):
+            return False
+        ta_wo = ta.replace("\nfrom inline_snapshot import external\n", "", 1) if "create" in approved else ta
+        if world.mask_snapshot_args(ta_wo) != world.mask_snapshot_args(TEXT):
+            return False
     if "create" in approved:
         if "from inline_snapshot import external" not in world.text_after(r, "test_a.py"):
             return False
@@ -200,15 +215,15 @@ def conditions(tier):
     # Group B: deactivation (CI variable, PYCHARM_HOSTED, xdist, xfail) for every category subset given on the CLI / by default
     for source in ("cli", "default"):
         for xdv in (0, 1, 2):
-            for xfv in (False, True):
-                pre = ["not b4 and not b5 and not b6 and not b7", f"0 <= ci <= 12 and xd == {xdv} and xf == {xfv}", "ci != 0 or xd == 2 or xf"]
+            for xfv in (0, 1, 2, 3):
+                pre = ["not b4 and not b5 and not b6 and not b7", f"0 <= ci <= 12 and xd == {xdv} and xf == {xfv}", "ci != 0 or xd == 2 or xf != 0"]
                 if source == "default":
                     pre.append("not (b0 or b1 or b2 or b3)")
-                name = f"deactivate_{source}_xd{xdv}_{'xfail' if xfv else 'noxfail'}"
+                name = f"deactivate_{source}_xd{xdv}_{['noxfail', 'xfail', 'xfail_inherited', 'xfail_false'][xfv]}"
                 body = f"return gate_case({BITL}, {source!r}, tty, [False, False, False, False], ci, pyc, xd, xf)"
-                fn = mkfn(name, BITS + [("tty", "bool"), ("ci", "int"), ("pyc", "bool"), ("xd", "int"), ("xf", "bool")], body, GLB, pre=pre)
+                fn = mkfn(name, BITS + [("tty", "bool"), ("ci", "int"), ("pyc", "bool"), ("xd", "int"), ("xf", "int")], body, GLB, pre=pre)
                 conds.append(Cond(name, fn, timeout=1200, group="deactivate",
-                                  bounds=f"category subset on the CLI (or defaults) x 12 CI variables x PYCHARM_HOSTED x terminal, numprocesses={[None, 0, 2][xdv]}, xfail={xfv}"))
+                                  bounds=f"category subset on the CLI (or defaults) x 12 CI variables x PYCHARM_HOSTED x terminal, numprocesses={[None, 0, 2][xdv]}, xfail mark: {['none', 'on the function', 'inherited from class/module', 'xfail(False)'][xfv]}"))
     for xdv in (0, 1, 2):
         for xfv in (False, True):
             for pycv in (False, True):
